@@ -248,6 +248,16 @@ func (w *world) seq(out *c.Out, seq int, r *c.Rng) {
 		out.Case(sig, "c03.op", kind, "0", c.Ints(pre.bal), c.Ints(pre.locked), c.Ints(pre.frac), pre.rem.String(), pre.supply.String(),
 			strings.Join(bl, ","), strconv.Itoa(a), strconv.Itoa(b), c.B(flag), u.String(), x.String(), "=>", string(cls),
 			c.Ints(post.bal), c.Ints(post.frac), post.rem.String(), post.supply.String())
+		if i%5 == 0 { // view functions and "no akava in x/bank"
+			var gb, sp, bb []*big.Int
+			for _, p := range w.parties {
+				gb = append(gb, pk.GetBalance(ctx, p.addr, "akava").Amount.BigInt())
+				sp = append(sp, pk.SpendableCoin(ctx, p.addr, "akava").Amount.BigInt())
+				bb = append(bb, bk.GetBalance(ctx, p.addr, "akava").Amount.BigInt())
+			}
+			out.Case("", "c03.view", "0", c.Ints(post.bal), c.Ints(post.locked), c.Ints(post.frac), "=>",
+				c.Ints(gb), c.Ints(sp), bk.GetSupply(ctx, "akava").Amount.String(), c.Ints(bb))
+		}
 		// registered invariants of the module on the real state (C02 feeds on this)
 		if cls == kapp.OK {
 			if msg, broken := pbkeeper.AllInvariants(pk)(ctx); broken {
